@@ -4,7 +4,6 @@
 From Coq Require Import Lia ZifyBool ZifyN ZifyNat.
 From NDB Require Import Base.Bytes Base.Bytes_proofs BTree.BTree BTree.Spec.
 Ltac Zify.zify_post_hook ::= Z.div_mod_to_equations.
-Set Default Timeout 30.
 
 
 (* ---------- partition-point loops ---------- *)
